@@ -4,7 +4,7 @@ import json, os, shutil, sys
 pid, mk, notes = sys.argv[1], sys.argv[2], sys.argv[3]
 base = sys.argv[4] if len(sys.argv) > 4 else '/tmp/wt'
 check_with = sys.argv[5] if len(sys.argv) > 5 else None     # another property's check decides this change          # round 2 lives under /tmp/wt2 and is stored as <ID>-r2-<mK>
-tag = {'/tmp/wt': '', '/tmp/wt2': 'r2-', '/tmp/wt3': 'r3-', '/tmp/wt4': 'r4-', '/tmp/wt5': 'r5-'}.get(base, 'rx-')
+tag = {'/tmp/wt': '', '/tmp/wt2': 'r2-', '/tmp/wt3': 'r3-', '/tmp/wt4': 'r4-', '/tmp/wt5': 'r5-', '/tmp/wt6': 'r6-'}.get(base, 'rx-')
 src = f'{base}/{pid}/MUTANTS/{mk}'
 dst = os.path.join(os.path.dirname(os.path.dirname(os.path.abspath(__file__))), 'seeded', f'{pid}-{tag}{mk}')
 os.makedirs(dst, exist_ok=True)
